@@ -35,11 +35,11 @@ func (l *SimLoader) LoadConfig() ([]byte, error) {
 
 type SimLoaderO struct {
 	SimLoader
-	ordM
+	hOrdM
 }
 type SimLoaderP struct {
 	SimLoader
-	ordM
+	hOrdM
 	prioM
 }
 
@@ -56,9 +56,11 @@ func NewSimLoader(orderClass string, order int, core SimLoader) interface {
 	case "":
 		return &core
 	case "ordered":
-		return &SimLoaderO{core, ordM{order}}
+		core.H.Ord = order
+		return &SimLoaderO{core, hOrdM{core.H}}
 	case "priority":
-		return &SimLoaderP{core, ordM{order}, prioM{}}
+		core.H.Ord = order
+		return &SimLoaderP{core, hOrdM{core.H}, prioM{}}
 	case "marker":
 		return &SimLoaderM{core, prioM{}}
 	}
